@@ -150,8 +150,10 @@ CHECKS = {
             "quantities are lambdas / defs / string expressions, plain, named and cached in every "
             "wrapper order, in live, summed, scaled, copied and JSON-reloaded states, are pickled; "
             "original and clone are compared with ==, toJson, and after identical row fills, a "
-            "vectorised batch, +, and a second clone; identities of the clone are checked to be "
-            "disjoint from every existing aggregator",
+            "vectorised batch (an isolated Count through Container.fillnumpy), +, and a second clone; "
+            "defs that read constants from module globals are pickled next to an aggregator of the same "
+            "shape with other values; identities of the clone are checked to be disjoint from every "
+            "existing aggregator",
             "partial: pickle / marshal of the objects and of function code are not modelled - that "
             "the implementation's clone behaves like the model's is decided by differential "
             "checking, not by a theorem; closures over mutable state are outside the claim",
@@ -167,24 +169,29 @@ CHECKS = {
             "Coq theorems about the transcribed accessors: for Bin (every sub-range, every arithmetic "
             "instance) and SparselyBin (every range reaching the filled bins) one more edge than bins "
             "and one centre and one entry per bin; the views of Bin, SparselyBin and CentrallyBin look "
-            "a value up with the very index fill routes it with; and (exact instance) the Bin / SparselyBin "
-            "bin a value is filled into is the one whose edges contain it; " + TIE + ": num_bins, bin_edges, "
+            "a value up with the very index fill routes it with; (exact instance) the Bin / SparselyBin "
+            "bin a value is filled into is the one whose edges contain it; (every instance) the "
+            "CentrallyBin bin is the one between the midpoints around x with ties to the upper bin, the "
+            "IrregularlyBin bin the one whose threshold is <= x while the next is not; " + TIE + ": num_bins, bin_edges, "
             "bin_centers, bin_entries for the full range and for sub-ranges on, between and within an "
             "ulp of edges, and bin_entries(xvalues), of all four primitives are compared with the "
             "model; on the implementation the views are also checked against the bins, against the "
             "full-range views (slice, cover) and against where a probe fill lands",
-            "partial: shapes of CentrallyBin / IrregularlyBin views, the partition statement for "
-            "CentrallyBin / IrregularlyBin and everything about binary64 rounding of "
-            "edges are decided by the correspondence and the oracle, not proved; 2-D grids and "
-            "projections (Bin of Bin, SparselyBin of SparselyBin) are checked on the implementation "
-            "against the cells, not modelled; Categorize labels and mpv are not checked",
+            "partial: shapes of CentrallyBin / IrregularlyBin views and everything about binary64 "
+            "rounding of edges are decided by the correspondence and the oracle, not proved; 2-D grids "
+            "and projections (Bin of Bin, SparselyBin of SparselyBin, IrregularlyBin of IrregularlyBin) "
+            "are checked on the implementation against the cells, Categorize labels / entries / mpv "
+            "against totals computed from the fills, mpv of Bin / SparselyBin / CentrallyBin against the "
+            "bins - none of these is modelled",
             "section 6 C13"),
     "C14": ("proof",
             "make_histograms(df, feature, bin_specs) is modelled as the primitive tree of the feature "
             "filled with the rows of the frame; Coq theorems (exact instance): any partition of the "
             "rows into chunks, summed with + in any order and parenthesisation, gives the histogram "
-            "of the whole frame (instance of the C01 theorems); " + TIE + ": frames with float (NaN), "
-            "integer, boolean and timestamp (NaT) columns, features of 1-3 columns, explicit bin "
+            "of the whole frame (instance of the C01 theorems), and the entries of the root equal the "
+            "number of rows; " + TIE + ": frames with float (NaN), "
+            "integer, boolean and timestamp (NaT; resolutions ns / us / ms / s) columns, features of 1-3 "
+            "columns, a time_axis whose own width differs from the user's specification, explicit bin "
             "specifications of every supported kind or those returned by make_histograms for "
             "binning auto / unit (with and without time_axis); make_histograms(whole), the sum of "
             "make_histograms(chunk) over a random partition, and the same tree built from the "
